@@ -45,6 +45,15 @@ TrReset ==
     /\ pv' = <<>> /\ ep' = "none" /\ doc' = NoDoc /\ dec' = NoDec /\ ran' = <<>> /\ res' = "none" /\ origin' = Chain
     /\ fx' = NoFx
 
+(* ---- rustc's verdict on the program (with the real macros) ------------- *)
+TrBuild ==
+    /\ IsEvent("Build")
+    /\ LET q == Progs[ProgIx(E.prog)] IN
+       /\ Chk("C05", "a_name_shared_between_two_parts_is_rejected_at_build_time", l,
+              ~q.accepted => (E.verdict = "error" /\ E.overlap))
+       /\ Chk("C05", "a_program_without_a_shared_name_builds", l, q.accepted => E.verdict = "ok")
+    /\ UNCHANGED <<prog, pv, stage, ep, doc, dec, ran, res, origin, fx>>
+
 (* ---- the list a part publishes ---------------------------------------- *)
 TrLists ==
     /\ IsEvent("Lists")
@@ -186,6 +195,8 @@ TrHandler ==
            /\ [i \in 1..Len(E.args) |-> E.args[i].n] = ArgNames(OwnerMethod)
            /\ SentArgsOk(E, fx.docj))
     /\ Chk("C02", "context_is_the_callers", l, CtxOk(E))
+    /\ Chk("C06", "entry_point_dispatches_with_the_given_deps_env_and_info", l,
+           fx.via = "ep" => (CtxOk(E) /\ ran'[Len(ran')] = [part |-> E.part, name |-> E.name, kind |-> E.kind]))
     /\ UNCHANGED <<pv, fx>>
 
 (* ---- the call returns --------------------------------------------------- *)
@@ -212,6 +223,8 @@ TrReturn ==
                 E.verdict = "ok" /\ (ep = "query" \/ E.resp.attrs = << <<"h", "ov_" \o ep>>, <<"code", "0">> >>))
        ELSE IF stage = "ran"
        THEN /\ Chk("C02", "caller_gets_the_handlers_own_outcome", l, OutcomeOk(E, OwnerMethod))
+            /\ Chk("C06", "entry_point_returns_the_dispatch_outcome_with_the_contracts_error_type", l,
+                   fx.via = "ep" => OutcomeOk(E, OwnerMethod))
             /\ Chk("C02", "handler_used_the_callers_storage", l,
                    E.mark = (IF ep = "query" THEN "" ELSE OwnerMethod.name))
        ELSE /\ Chk("C03", "a_rejected_document_is_an_error_and_runs_nothing", l,
@@ -272,7 +285,7 @@ TrRemoteQueryReturn ==
            IF m.outcome = "ok" THEN E.verdict = "ok" /\ E.value = QRespJson(m) ELSE E.verdict = "err")
     /\ UNCHANGED <<prog, pv, stage, ep, doc, dec, ran, res, origin, fx>>
 
-TStep == TrSchemas \/ TrRemoteMsg \/ TrRemoteQueryReturn \/ TrReset \/ TrLists \/ TrEncode \/ TrDeliver \/ TrWrapperDecode \/ TrStructDecode
+TStep == TrBuild \/ TrSchemas \/ TrRemoteMsg \/ TrRemoteQueryReturn \/ TrReset \/ TrLists \/ TrEncode \/ TrDeliver \/ TrWrapperDecode \/ TrStructDecode
          \/ TrSilentDecode \/ TrOverrideHandler \/ TrHandler \/ TrReturn
 
 (* the design-level invariants of Runtime.tla, evaluated in every state the trace reaches *)
